@@ -277,6 +277,16 @@ func (p *parser) unary() Expr {
 		p.next()
 		return EUn{"-", p.unary()}
 	}
+	if p.isOp("*") { // a pointer type used as an argument, e.g. asptr(x, *bucket)
+		p.next()
+		t := p.next()
+		name := "*" + t.s
+		for p.isOp(".") {
+			p.next()
+			name += "." + p.next().s
+		}
+		return EIdent{name}
+	}
 	return p.postfix()
 }
 func (p *parser) postfix() Expr {
@@ -460,6 +470,16 @@ type Monitor struct {
 	Inv    []Clause
 }
 
+// AtomicObj: an internally synchronised library object (sync.Map) embedded in a Helios struct and shared
+// between threads. In mon mode its abstract state is havocked down to Inv before every operation on it and
+// every operation must re-establish Inv and satisfy the two-state Guarantee clauses.
+type AtomicObj struct {
+	Pkg, Type, Field, Self string
+	State                  []string
+	Inv                    []Clause
+	Guar                   []Clause
+}
+
 type ObjInv struct {
 	Pkg  string
 	Type string
@@ -489,6 +509,7 @@ type Contracts struct {
 	Policies []FieldPolicy
 	Monitors []*Monitor
 	ObjInvs  []*ObjInv
+	Atomics  []*AtomicObj
 	Lemmas   []*Lemma
 	Forwards []Forward
 	UFuns    []UFun
@@ -513,7 +534,7 @@ type Forward struct {
 var keywords = map[string]bool{"func": true, "trusted": true, "requires": true, "ensures": true, "ensures_panic": true,
 	"modifies": true, "may_panic": true, "noreturn": true, "inline": true, "mode": true, "props": true, "loop": true, "invariant": true,
 	"decreases": true, "pred": true, "spec": true, "ghost": true, "field": true, "monitor": true, "guards": true, "inv": true,
-	"objinv": true, "lemma": true, "ufun": true, "axiom": true, "induction": true, "forwards": true, "package": true, "pure": true, "results": true, "uses": true, "hint": true}
+	"objinv": true, "lemma": true, "ufun": true, "axiom": true, "atomic": true, "state": true, "guarantee": true, "induction": true, "forwards": true, "package": true, "pure": true, "results": true, "uses": true, "hint": true}
 
 func firstWord(s string) (string, string) {
 	s = strings.TrimSpace(s)
@@ -626,7 +647,8 @@ func (cs *Contracts) loadFile(path, repo string) error {
 	var curM *Monitor
 	var curO *ObjInv
 	var curLem *Lemma
-	reset := func() { curF, curL, curM, curO, curLem = nil, nil, nil, nil, nil }
+	var curA *AtomicObj
+	reset := func() { curF, curL, curM, curO, curLem, curA = nil, nil, nil, nil, nil, nil }
 	fail := func(l ll, e error) error { return fmt.Errorf("%s:%d: %v", path, l.line, e) }
 	for _, l := range lines {
 		switch l.kw {
@@ -672,6 +694,31 @@ func (cs *Contracts) loadFile(path, repo string) error {
 					curF.ResultName = append(curF.ResultName, strings.TrimSpace(p))
 				}
 			}
+		case "atomic": // atomic Type.field self
+			reset()
+			fs := strings.Fields(l.rest)
+			i := strings.LastIndex(fs[0], ".")
+			curA = &AtomicObj{Pkg: pkg, Type: fs[0][:i], Field: fs[0][i+1:], Self: "self"}
+			if len(fs) > 1 {
+				curA.Self = fs[1]
+			}
+			cs.Atomics = append(cs.Atomics, curA)
+		case "state":
+			if curA == nil {
+				return fail(l, fmt.Errorf("state outside atomic"))
+			}
+			for _, m := range strings.Split(l.rest, ",") {
+				curA.State = append(curA.State, strings.TrimSpace(m))
+			}
+		case "guarantee":
+			c, err := parseClause(l.rest)
+			if err != nil {
+				return fail(l, err)
+			}
+			if curA == nil {
+				return fail(l, fmt.Errorf("guarantee outside atomic"))
+			}
+			curA.Guar = append(curA.Guar, c)
 		case "requires", "ensures", "ensures_panic", "invariant", "inv":
 			c, err := parseClause(l.rest)
 			if err != nil {
@@ -692,6 +739,8 @@ func (cs *Contracts) loadFile(path, repo string) error {
 				curL.Invariant = append(curL.Invariant, c)
 			case curM != nil && l.kw == "inv":
 				curM.Inv = append(curM.Inv, c)
+			case curA != nil && l.kw == "inv":
+				curA.Inv = append(curA.Inv, c)
 			case curO != nil && l.kw == "inv":
 				curO.Inv = append(curO.Inv, c)
 			default:
@@ -806,10 +855,16 @@ func (cs *Contracts) loadFile(path, repo string) error {
 			case "var":
 				a, sort := firstWord(r)
 				cs.GVars = append(cs.GVars, GhostVar{Name: a, Sort: sort, Pkg: pkg})
-			case "entry", "exit": // ghost entry [if cond ::] lhs := rhs
+			case "entry", "exit", "after", "before", "release": // ghost entry|exit|after <callee>|release <mutex> [if cond ::] lhs := rhs
+				if k == "after" || k == "before" || k == "release" {
+					w, r2 := firstWord(r)
+					k = k + ":" + w
+					r = r2
+				}
 				if curF == nil {
 					return fail(l, fmt.Errorf("ghost stmt outside func"))
 				}
+				r = strings.TrimSpace(strings.TrimPrefix(strings.TrimSpace(r), "::"))
 				g := GhostStmt{At: k, Src: r}
 				if strings.HasPrefix(r, "if ") {
 					j := strings.Index(r, "::")
